@@ -161,8 +161,26 @@ def class_member(I, ci, obj, attr, node, frame):
     ca = world.find_class_attr(ci, attr)
     if ca is not None:
         dc, expr = ca
-        return I.eval(expr, I.registry.global_frame(I, dc.module))
+        return I.eval(expr, class_body_frame(I, dc, expr))
     return None
+
+
+def class_body_frame(I, dc, expr, depth=0):
+    """Frame in which a class-level assignment's right-hand side is evaluated: the module's globals plus the class-level
+    names the expression mentions (`_supported = _allowed[:3]`), each evaluated the same way (class bodies here are
+    straight-line constant definitions; a name defined later in the body or rebound is out of the subset via the
+    unresolved-name rule)."""
+    import ast as _ast
+    from .sv import Frame
+    g = I.registry.global_frame(I, dc.module)
+    names = [n.id for n in _ast.walk(expr) if isinstance(n, _ast.Name) and n.id in dc.attrs]
+    if not names or depth > 4:
+        return g
+    fr = Frame(parent=g)
+    for nm in names:
+        if dc.attrs[nm] is not expr:
+            fr.vars[nm] = I.eval(dc.attrs[nm], class_body_frame(I, dc, dc.attrs[nm], depth + 1))
+    return fr
 
 
 def get_attr(I, obj, attr, node, frame=None):
